@@ -3,6 +3,7 @@
    case    ::= (script [burst] action ...)   (burst: the harness does not wait for quiescence between
                                                the actions; the prediction is the same)
    action  ::= start | (ws RUN STEP TOK BEH SLOW) | (wsbad RUN) | (sig RUN SIGID DATAOK) | (sigbad RUN)
+             | (sigv RUN SIGID VALUE|absent) | (wsv RUN STEP TOK VALUE|absent)
              | (unk MSGID RUN) | done | (garbage KIND) | (cut action K) | eof
              | (release TOK) | cancel | closeout
    RUN     ::= "id" | norun          BEH ::= ok | errout | undecl | invalid | panic | badinput
@@ -14,10 +15,47 @@
    message is EvPartialThenEOF; bytes that are a well-formed CBOR item but not a runtime message
    (garbage kinds 1 and 2) are accepted in the position of the start message — the server decodes
    that one into `any` — and are EvGarbage everywhere else. *)
-From Verif Require Import Base.Prelude Base.Str ATP.Msg ATP.Server Interp.Sexp.
+From Verif Require Import Base.Prelude Base.Str Base.Float Base.GoVal Schema.Syntax Interp.Sexp Interp.Codec.
+From Verif Require Schema.Ops Schema.Cbor Interp.RunSchema.
+From Verif Require Import ATP.Msg ATP.Server.
 Open Scope string_scope.
 Open Scope list_scope.
 Open Scope Z_scope.
+
+(* ---- payloads judged by the schema model (Schema/Ops.v): the data schemas of the harness plugin's signals
+   "sig" (an object with ONE required integer), "stop" (an object WITHOUT properties), "two" (two optional
+   properties) and the input schemas of its steps "z" (no property) and "o" (one required integer).  What the
+   server's CallSignal / CallStep does with a payload is Unserialize + Validate of that schema on the value the
+   CBOR decoder hands over (cbor_norm).  Neither can panic on these schemas - C07_payload_schemas_never_panic
+   (Properties/C07.v, from C04_never_panics) - so "accepted or rejected" is the whole outcome; a signal goroutine
+   has no recover, the model's dataok abstraction rests on that theorem. *)
+Definition c07_prop (t : schema) (req : bool) : property := mkProp t None req [] [] [] None [] false false None.
+Definition c07_obj (id : string) (ps : list (string * property)) : schema := SScope [(id, SObject id false ps)] id.
+Definition c07_int : schema := SInt None None None.
+Definition c07_sig_schema (sg : string) : option schema :=
+  if String.eqb sg "sig" then Some (c07_obj "sigdata" [("n", c07_prop c07_int true)])
+  else if String.eqb sg "stop" then Some (c07_obj "stopdata" [])
+  else if String.eqb sg "two" then Some (c07_obj "twodata" [("a", c07_prop c07_int false); ("b", c07_prop (SString None None None) false)])
+  else None.
+Definition c07_step_schema (st : string) : option schema :=
+  if String.eqb st "z" then Some (c07_obj "zin" [])
+  else if String.eqb st "o" then Some (c07_obj "oin" [("tok", c07_prop c07_int true)])
+  else None.
+Definition c07_env : env := mkEnv [] [] (mkOracles (fun _ => None) (fun _ => false)).
+Definition c07_accepts (s : schema) (v : gval) : bool :=
+  match Verif.Interp.RunSchema.m_unser Verif.Interp.RunSchema.FUEL c07_env s (Verif.Schema.Cbor.cbor_norm DEPTH v) with
+  | Ok n => match Verif.Interp.RunSchema.m_validate Verif.Interp.RunSchema.FUEL c07_env s n with Ok _ => true | _ => false end
+  | _ => false
+  end.
+Definition c07_payload_of (x : sexp) : option gval :=
+  match x with
+  | At a => if String.eqb a "absent" then Some VNil else gval_of DEPTH x
+  | _ => gval_of DEPTH x
+  end.
+Definition c07_sig_ok (sg : string) (v : gval) : bool :=
+  match c07_sig_schema sg with Some s => c07_accepts s v | None => false end.
+Definition c07_step_ok (st : string) (v : gval) : bool :=
+  match c07_step_schema st with Some s => c07_accepts s v | None => false end.
 
 Definition c07_run_of (x : sexp) : option runid :=
   match x with
@@ -47,7 +85,15 @@ Definition c07_event_of (first : bool) (x : sexp) : option (event Z) :=
       if atom_eq h "ws" then
         r' <-? c07_run_of r ;; st' <-? str_of st ;; t <-? z_of_atom tok ;; Some (EvMsg (WorkStart r' st' t))
       else None
+  | Ls [h; r; st; tok; v] =>
+      if atom_eq h "wsv" then
+        r' <-? c07_run_of r ;; st' <-? str_of st ;; t <-? z_of_atom tok ;; _ <-? c07_payload_of v ;; Some (EvMsg (WorkStart r' st' t))
+      else None
   | Ls [h; r; sg; ok] =>
+      if atom_eq h "sigv" then
+        r' <-? c07_run_of r ;; sg' <-? str_of sg ;; v <-? c07_payload_of ok ;;
+        Some (EvMsg (Signal r' sg' (if c07_sig_ok sg' v then 1 else 0)))
+      else
       if atom_eq h "sig" then
         r' <-? c07_run_of r ;; sg' <-? str_of sg ;; ok' <-? b_of_atom ok ;;
         Some (EvMsg (Signal r' sg' (if ok' then 1 else 0)))
@@ -110,6 +156,11 @@ Fixpoint c07_table (xs : list sexp) : list (Z * (sbeh * bool)) :=
           match c07_beh_of b with Some bh => (k, (bh, sl)) :: c07_table t | None => c07_table t end
       | _, _, _, _ => c07_table t
       end
+  | Ls [h; r; St st; tok; v] :: t =>
+      match atom_eq h "wsv", z_of_atom tok, c07_payload_of v with
+      | true, Some k, Some v' => (k, ((if c07_step_ok st v' then BSuccess "success" else BFails), false)) :: c07_table t
+      | _, _, _ => c07_table t
+      end
   | _ :: t => c07_table t
   end.
 
@@ -117,8 +168,8 @@ Definition c07_cfg (xs : list sexp) : cfg :=
   let tb := c07_table xs in
   mkCfg (fun k => match zlookup k tb with Some (b, _) => b | None => BFails end)
         (fun k => match zlookup k tb with Some (_, sl) => sl | None => false end)
-        (fun st => String.eqb st "s" || String.eqb st "t")
-        (fun sg => String.eqb sg "sig").
+        (fun st => String.eqb st "s" || String.eqb st "t" || String.eqb st "z" || String.eqb st "o")
+        (fun sg => String.eqb sg "sig" || String.eqb sg "stop" || String.eqb sg "two").
 
 Definition c07_err_sexp (e : srverr) : sexp := Ls [St (se_run e); sb (se_sf e); sb (se_vf e)].
 Definition c07_item_sexp (m : omsg) : sexp :=
